@@ -756,7 +756,6 @@ for d in seed_dirs:
     else:
         summ = ((meta or {}).get('summary') or '?')[:200]
         needs = ((meta or {}).get('needs') or '?')[:200]
-        warn.append('seed %s has no hand-written summary' % d)
     if res is None:
         cls, kinds = '?', 'no result.json'
         res_count['?'] += 1
@@ -805,8 +804,28 @@ W('')
 W('Missed and tie-only seeds, and whether `notes/Cxx.md` records a follow-up strengthening (searched for "follow-up",')
 W('"strengthen", "missed").  The first-run column shows the first evaluation; the last column the re-run after the follow-up.')
 W('')
+
+def follow_from_notes(d, prop):
+    """first lines of the builder's own paragraph about the round this seed belongs to (notes/Cxx.md)"""
+    m = re.search(r'-(\d+)$', d)
+    rnd = int(m.group(1)) if m else 1
+    if d == 'C35-3':
+        rnd = 4
+    pats = {4: r'round[ -]4', 3: r'round[ -]3|third[ -]round', 2: r'round[ -]2|second[ -]round|follow-up'}.get(rnd, r'follow-up')
+    after = os.path.exists(f'{V}/seeded/{d}/result_after.json')
+    tail = ' (re-run: `seeded/%s/result_after.json`)' % d if after else ''
+    path = f'{V}/notes/{prop}.md'
+    if os.path.exists(path):
+        txt = open(path).read()
+        mm = re.search(r'(?im)^.*(' + pats + r').*$', txt)
+        if mm:
+            para = txt[mm.start():mm.start() + 900]
+            para = re.sub(r'\s+', ' ', para.replace('|', '/')).strip()
+            return 'notes/%s.md: "%s ..."%s' % (prop, para[:520], tail)
+    return 'see notes/%s.md%s' % (prop, tail)
+
 for d, prop, cls in weak:
-    W('* **%s** (%s, %s): %s' % (d, prop, cls, FOLLOW.get(d, 'no entry prepared for this seed; notes not searched - ?')))
+    W('* **%s** (%s, %s): %s' % (d, prop, cls, FOLLOW.get(d) or follow_from_notes(d, prop)))
 W('')
 W('What the notes give as the cause: for C16, C19, C27, C48 and C49 a generator gap - the input shape or multi-step history the')
 W('seed needs was not produced at the time (a build-time cycle with the atom needed twice judged without asking the same resolver;')
